@@ -35,6 +35,67 @@ pub fn stream(casefile: &str)
 	}
 }
 
+/// `delta-total` (C15): everything the second-generation front end offers, on
+/// arbitrary bytes: lex, token dump, parse, errors, header, tree and header dumps.
+/// Fields: ntok, nodes, header nodes, lexer codes, parser codes, dump sizes.
+pub fn total_stream(casefile: &str)
+{
+	for (id, payload) in crate::util::read_cases(casefile)
+	{
+		let res = crate::util::guarded(move || {
+			let tokens = lexer::lex(&payload, "case.pn");
+			let ntok = tokens.base_tokens().len();
+			let lexcodes = tokens.errors().map(|e| e.codes()).unwrap_or_default();
+			let source = std::str::from_utf8(&payload).ok();
+			let mut xml = Vec::new();
+			if !lexcodes.is_empty()
+			{
+				// main.rs stops here: a module with lexical errors is never parsed
+				return format!(
+					"lexerr\tntok={}\tlex={}\txml={:?}",
+					ntok,
+					crate::util::codes_to_string(&lexcodes),
+					xml
+				);
+			}
+			if let Some(source) = source
+			{
+				xml.push(tokens.as_xml(source).map(|l| l.len() + 1).sum::<usize>());
+			}
+			let tree = parser::parse(&tokens);
+			let parsecodes = tree.errors(&tokens).map(|e| e.codes()).unwrap_or_default();
+			if !parsecodes.is_empty()
+			{
+				// main.rs stops here: no header, no dumps for a module with syntax errors
+				// (build_header asserts that there are none)
+				return format!(
+					"parseerr\tntok={}\tnodes={}\tdecls={}\tparse={}\txml={:?}",
+					ntok,
+					tree.num_parse_nodes(),
+					tree.num_declarations(),
+					crate::util::codes_to_string(&parsecodes),
+					xml
+				);
+			}
+			let header = tree.build_header();
+			if let Some(source) = source
+			{
+				xml.push(tree.as_xml(&tokens, source).map(|l| l.len() + 1).sum::<usize>());
+				xml.push(header.as_xml(&tokens, source).map(|l| l.len() + 1).sum::<usize>());
+			}
+			format!(
+				"ok\tntok={}\tnodes={}\thdr={}\tdecls={}\tparse=[]\txml={:?}",
+				ntok,
+				tree.num_parse_nodes(),
+				header.num_parse_nodes(),
+				tree.num_declarations(),
+				xml
+			)
+		});
+		println!("{}\t{}", id, res);
+	}
+}
+
 /// Canonical token line shared by both lexers and both models:
 /// "Kind value type start end line col;" per token.
 pub fn lex_delta_line(src: &[u8]) -> String
